@@ -141,6 +141,10 @@ MINI = {
     'm_alias2': ("SCHEMA m_alias2;\nFUNCTION f (l : LIST OF REAL; m : LIST OF REAL) : REAL;\n  LOCAL\n    r : REAL := 0.0;\n  END_LOCAL;\n"
                  "  ALIAS a FOR l;\n    r := r + SIZEOF (a);\n  END_ALIAS;\n  ALIAS b FOR m;\n    r := r + SIZEOF (b);\n  END_ALIAS;\n"
                  "  ALIAS c FOR l;\n    ALIAS d FOR m;\n      r := r + SIZEOF (c) + SIZEOF (d);\n    END_ALIAS;\n  END_ALIAS;\n  RETURN (r);\nEND_FUNCTION;\nEND_SCHEMA;\n"),
+    'm_alias_use': ("SCHEMA m_alias_use;\nENTITY pt; x : REAL; l : LIST OF REAL; END_ENTITY;\nENTITY seg; p : pt; END_ENTITY;\n"
+                    "FUNCTION f (a : pt; s : seg) : REAL;\n  LOCAL\n    r : REAL := 0.0;\n  END_LOCAL;\n"
+                    "  ALIAS b FOR a;\n    r := r + b.x;\n  END_ALIAS;\n  ALIAS c FOR a.l;\n    r := r + c[1];\n  END_ALIAS;\n"
+                    "  ALIAS d FOR s.p;\n    r := r + d.x + d.l[1];\n  END_ALIAS;\n  RETURN (r);\nEND_FUNCTION;\nEND_SCHEMA;\n"),
     'm_widths': ('SCHEMA m_widths;\nTYPE coarse = REAL (4); END_TYPE;\nTYPE code = STRING (10) FIXED; END_TYPE;\nTYPE nm = STRING (30); END_TYPE;\nTYPE bits = BINARY (8); END_TYPE;\n'
                  'TYPE lr = LIST [1:?] OF REAL (6); END_TYPE;\nENTITY e; a : REAL (3); b : OPTIONAL STRING (5) FIXED; c : ARRAY [1:3] OF REAL (2); d : SET OF STRING (7); k : coarse;\n'
                  ' DERIVE\n  h : REAL (2) := a / 2.0;\nEND_ENTITY;\nFUNCTION f (p : REAL (5); q : STRING (2)) : REAL (8);\n  LOCAL\n    t : REAL (9) := 0.5;\n  END_LOCAL;\n  RETURN (t + p);\nEND_FUNCTION;\nEND_SCHEMA;\n'),
@@ -603,6 +607,24 @@ def interface_paths():
         out.append(('paths_%s_alias_clash_with_plain' % kw.lower(), base + 'SCHEMA top_s;\n%s FROM base_s (pixel AS point, point);\nENTITY holder; it : point; END_ENTITY;\nEND_SCHEMA;\n' % kw, False))
     return out
 
+
+
+def cyclic_subtypes():
+    """(name, text, planted) - a circular subtype graph (cycle of 1, 2 or 3 entities) with one more entity hanging off it, as subtype of a member or referring to
+    one; the extra entity has an attribute of its own and mentions an own, an inherited, or no attribute at all in a DERIVE: invalid whatever hangs off the cycle"""
+    out = []
+    for n in (1, 2, 3):
+        cyc = ['zq_c%d' % i for i in range(n)]
+        decl = ''.join('ENTITY %s SUBTYPE OF (%s); x%d : INTEGER; END_ENTITY;\n' % (cyc[i], cyc[(i + 1) % n], i) for i in range(n))
+        for at in range(n):
+            for how, head in (('subtype', 'ENTITY leaf SUBTYPE OF (%s);' % cyc[at]), ('refers', 'ENTITY leaf; r : %s;' % cyc[at])):
+                for what, body in (('own', ' w : INTEGER;\n DERIVE\n  d : INTEGER := w + 1;'), ('inherited', ' w : INTEGER;\n DERIVE\n  d : INTEGER := %sx0 + 1;' % ('' if how == 'subtype' else 'r.')),
+                                   ('plain', ' w : INTEGER;')):
+                    for pos in ('after', 'before'):
+                        leaf = '%s%s\nEND_ENTITY;\n' % (head, body)
+                        text = 'SCHEMA cy;\n%s%s%sEND_SCHEMA;\n' % (leaf if pos == 'before' else '', decl, leaf if pos == 'after' else '')
+                        out.append(('cycle%d_at%d_%s_%s_%s' % (n, at, how, what, pos), text, cyc[0]))
+    return out
 
 def duplicate_kinds():
     """(name, text, planted) - one name declared twice in one schema by declarations of DIFFERENT kinds (entity, type, function, procedure, constant, rule),
